@@ -259,7 +259,32 @@ fn check_iso(c: &IsoCase) -> Outcome {
     } else {
         let (Some(ip), Some(iq)) = (find("P"), find("Q")) else {
             // the outer mutators ended the outer subshell early (errexit, assignment to a read-only
-            // variable, ...): only the isolation of the main shell could be judged
+            // variable, ...): only the isolation of the main shell could be judged. But the way the
+            // INNER subshell ends (exit status, death by a signal) must not end the outer one: if the
+            // outer subshell reaches Q when the inner body simply falls off its end, it must reach
+            // Q now as well (errexit apart, under which a failing subshell does end it)
+            let errexit = c.outer.iter().chain(&c.mutators).any(|m| matches!(MUTATORS[*m as usize % MUTATORS.len()], "set -o errexit" | "set -e"));
+            if find("P").is_some() && c.ending % 5 != 0 && !errexit {
+                let mut plain = c.clone();
+                plain.ending = 0;
+                let text0 = script(&plain);
+                let mut s0 = vsys::Setup::script(&text0);
+                if plain.interactive {
+                    s0.argv = vec!["yash".into(), "-i".into()];
+                    s0.stdin = Some(text0.clone().into_bytes());
+                }
+                s0.chooser = plain.chooser.clone();
+                s0.preempt = !matches!(plain.chooser, Chooser::Fifo);
+                s0.files.push(("sub".into(), FileSpec::Dir { mode: 0o755 }));
+                s0.files.push(("/tmp/f0".into(), FileSpec::Regular { content: String::new(), mode: 0o644, exec: false }));
+                let r0 = vsys::run(&s0);
+                if r0.snaps.iter().any(|s| s.tag == "Q") {
+                    return Outcome::fail(ctx(format!(
+                        "the enclosing subshell stopped after the inner subshell ended (ending {}): it goes on to its next command when the inner body falls off its end, and the end of a subshell - by exit or by a signal - ends only that subshell",
+                        c.ending % 5
+                    )));
+                }
+            }
             return Outcome::pass(false).class("outer-subshell-ended-early");
         };
         let (p, q) = (&r.snaps[ip], &r.snaps[iq]);
